@@ -39,6 +39,10 @@ Definition np_isclose (rtol atol a b : T) : bool := nabs (a -! b) <=?! (atol +! 
 Definition np_allclose_s (rtol atol a b : T) : bool := np_isclose rtol atol a b.
 Definition np_allclose_m (rtol atol : T) (a b : M3 T) : bool :=
   forallb (fun p => np_isclose rtol atol (fst p) (snd p)) (combine (mlist a) (mlist b)).
+(* np.linalg.norm of a 3x3 array (Frobenius), and of E - np.eye(4) for a 4x4 pose matrix E whose bottom row is
+   (0,0,0,1): the bottom row of the difference is zero and contributes nothing *)
+Definition np_fro_norm_m (m : M3 T) : T := nsqrt (fnorm2 m).
+Definition np_fro_norm_p_minus_eye (E : Pose T) : T := nsqrt (fnorm2 (msub (prot E) I3) +! nrm2 (ptr E)).
 (* for i in range(n): acc = body acc i *)
 Definition py_for_range {S : Type} (n : nat) (body : S -> nat -> S) (init : S) : S := fold_left body (seq 0 n) init.
 End Np.
